@@ -57,6 +57,12 @@ func (s StringCallable) toInterface() interface{} {
 // TypeOf implements the jsonata $type function that returns the data type of
 // the argument
 func TypeOf(x interface{}) (string, error) {
+	if x == nil {
+		// e.g. a JSON null in the input document, or the
+		// result of a function that returns nil
+		return "null", nil
+	}
+
 	v := reflect.ValueOf(x)
 	if jtypes.IsCallable(v) {
 		return "function", nil
